@@ -4,7 +4,7 @@ a shape the rule does not recognise is `undecided`, never a violation."""
 import ast
 
 from . import rule
-from ..frontend import AnalysisError, norm
+from ..frontend import AnalysisError, norm, is_property
 from ..report import Finding, RuleResult
 from ..astutil import nodes_through_helpers
 
@@ -1988,9 +1988,32 @@ def r_json_sib(E):
                 f"inputs are saved rounded to 0 or 1 decimals instead of 3, and their graph data is never saved)", path,
                 fn.lineno, f"{cn}.to_json"))
     # lossless scalar writer; documented rounding of the hourly writer
-    rel, eq = pm.find_function("abstract_modeling_classes/explainable_objects.py", "ExplainableQuantity.to_json")
+    # (the writer of a class: the to_json it has or inherits, with the hooks of the class it calls)
+    def writer_of(cn):
+        owner, f = pm.find_method(cn, "to_json")
+        if f is None:
+            raise AnalysisError(f"{cn}.to_json vanished")
+        fns, todo = [f], [f]
+        finder = pm.helper_finder(cn)
+        while todo:
+            g = todo.pop()
+            for c in ast.walk(g):
+                if isinstance(c, ast.Call) and isinstance(c.func, ast.Attribute) and norm(c.func.value) in ("self", "super()"):
+                    h = finder(c.func.attr) if norm(c.func.value) == "self" else None
+                    if norm(c.func.value) == "super()":
+                        oc = g._parent.name if isinstance(getattr(g, "_parent", None), ast.ClassDef) else None
+                        for base in (pm.mro(oc)[1:] if oc else []):
+                            h = next((b_ for b_ in pm.classes[base].node.body if isinstance(b_, ast.FunctionDef)
+                                      and b_.name == c.func.attr), None) if base in pm.classes else None
+                            if h is not None:
+                                break
+                    if h is not None and h not in fns and not is_property(h):
+                        fns.append(h)
+                        todo.append(h)
+        return pm.classes[owner].path, f, fns
+    rel, eq, eq_fns = writer_of("ExplainableQuantity")
     res.instances += 1
-    for d in [n for n in ast.walk(eq) if isinstance(n, ast.Dict)]:
+    for d in [n for f_ in eq_fns for n in ast.walk(f_) if isinstance(n, ast.Dict)]:
         for k, v in zip(d.keys, d.values):
             if isinstance(k, ast.Constant) and k.value == "value":
                 # through the helpers the expression calls (same-class methods, package-level functions)
@@ -2005,11 +2028,14 @@ def r_json_sib(E):
                         f"scalar inputs are written as `{norm(v)[:60]}`: an absolute rounding in the value's own unit "
                         f"(8.02e-13 s becomes 0) — the loaded model has other inputs than the saved one, although a second "
                         f"export gives the same JSON", rel, v.lineno, "ExplainableQuantity.to_json"))
-    rel, hq = pm.find_function("abstract_modeling_classes/explainable_objects.py", "ExplainableHourlyQuantities.to_json")
+    rel, hq, hq_fns = writer_of("ExplainableHourlyQuantities")
     res.instances += 1
-    dflt = {a.arg: d for a, d in zip(hq.args.args[-len(hq.args.defaults):], hq.args.defaults)} if hq.args.defaults else {}
-    rd = dflt.get("rounding_depth")
-    if rd is None or not isinstance(rd, ast.Constant) or not isinstance(rd.value, int) or rd.value < 3:
+    rds = []
+    for f_ in hq_fns:
+        dflt = {a.arg: d for a, d in zip(f_.args.args[-len(f_.args.defaults):], f_.args.defaults)} if f_.args.defaults else {}
+        if "rounding_depth" in dflt:
+            rds.append(dflt["rounding_depth"])
+    if not rds or any(not isinstance(rd, ast.Constant) or not isinstance(rd.value, int) or rd.value < 3 for rd in rds):
         res.findings.append(Finding("R-JSON-SIB", "hourly rounding depth", "hourly values are no longer written with (at "
                                     "least) the documented 3 decimals by default", rel, hq.lineno, hq.name))
     res.samples = [{"class": cn, "first_positional_parameter": p} for cn, p in sorted(first.items())]
